@@ -126,3 +126,6 @@ pub open spec fn case_run(evs: Seq<Ev>, c: ast::CaseClauseCommand, outer: bool) 
 pub broadcast proof fn lemma_case_run_push(s: Seq<Ev>, e: Ev, c: ast::CaseClauseCommand, o: bool)
     ensures #[trigger] case_run(s.push(e), c, o) == case_step(case_run(s, c, o), e, c, o),
 { assert(s.push(e).drop_last() =~= s); }
+// R14: `s.contains([c1, c2, ..])` (any of the characters occurs) -> stub, result uninterpreted
+pub trait VxContainsAny { fn vx_contains_any(&self, cs: &[char]) -> bool; }
+impl VxContainsAny for String { #[verifier::external_body] fn vx_contains_any(&self, cs: &[char]) -> bool { unimplemented!() } }
